@@ -521,8 +521,10 @@ func init() {
 							add("C11", "second application changes the document", "idempotence:"+strings.Join(ops, "+"), vj.Enc(out.doc)+" -> "+vj.Enc(again.doc))
 						}
 					} else if again.err {
-						// a second application may legitimately be rejected only if the first was accepted on a different shape; report it
-						add("C11", "second application of an idempotent update is rejected", "idempotence:rejected", "")
+						// a rejected second application changes nothing, which is all the property asks; it happens when the first
+						// application changed the shape the update addresses (e.g. "b.5" pads b with nulls, after which "b.$[].c"
+						// cannot be created below a null element — MongoDB rejects that as well). Counted, not reported.
+						c.Tags = append(c.Tags, "idempotence:second-application-rejected")
 					}
 				}
 			}
